@@ -300,6 +300,71 @@ def api(ctx):
   ctx.require(n >= 10, 'only %d standard-library attribute references found' % n)
 
 
+def step_types(ctx, bp, ns):
+  """Location-independent: whichever way num_steps selects the events it adds up (==, !=, in, not in, a named set), the selected
+  event types - evaluated over the finite set of PerformanceEvent type constants - must be exactly {TIME_SHIFT}."""
+  pe = ctx.cls('performance_lib:PerformanceEvent')
+  universe = dict((k, U.const_value(v)) for k, v in pe.attrs.items() if k.isupper() and isinstance(U.const_value(v), int) and not k.startswith('_'))
+  ctx.require('TIME_SHIFT' in universe and len(universe) >= 4, 'PerformanceEvent type constants not found')
+
+  def type_set(node):
+    if isinstance(node, ast.Attribute) and node.attr in universe and norm_text(node.value).endswith('PerformanceEvent'):
+      return {node.attr}
+    if isinstance(node, (ast.Tuple, ast.List, ast.Set)):
+      out = set()
+      for e in node.elts:
+        t = type_set(e)
+        if t is None:
+          return None
+        out |= t
+      return out
+    if isinstance(node, ast.Call) and dotted(node.func) in ('frozenset', 'set', 'tuple', 'list') and len(node.args) == 1:
+      return type_set(node.args[0])
+    if isinstance(node, ast.Attribute) and isinstance(node.value, ast.Name) and node.value.id == 'self' and node.attr in bp.attrs:
+      return type_set(bp.attrs[node.attr])
+    if isinstance(node, ast.Name) and len(ns.module.assigns.get(node.id, [])) == 1:
+      return type_set(ns.module.assigns[node.id][0])
+    return None
+  tests = [c for c in ast.walk(ns.node) if isinstance(c, ast.Compare) and len(c.ops) == 1 and
+           any(isinstance(x, ast.Attribute) and x.attr == 'event_type' for x in (c.left, c.comparators[0]))]
+  if len(tests) != 1:
+    return
+  c = tests[0]
+  other = c.comparators[0] if isinstance(c.left, ast.Attribute) and c.left.attr == 'event_type' else c.left
+  ts = type_set(other)
+  if ts is None:
+    return
+  op = type(c.ops[0])
+  sel = {ast.Eq: ts, ast.In: ts, ast.NotEq: set(universe) - ts, ast.NotIn: set(universe) - ts}.get(op)
+  if sel is None:
+    return
+  # polarity: the comparison must be the selecting condition of the addition: a comprehension filter, or a test known to hold
+  # (negated: an early `continue`) where event_value is added
+  pol = None
+  pm = U.parents(ns.node)
+  par = pm.get(id(c))
+  if isinstance(par, ast.comprehension) and any(c is i for i in par.ifs):
+    pol = True
+  else:
+    for a in ast.walk(ns.node):
+      if isinstance(a, ast.Attribute) and a.attr == 'event_value':
+        st = a
+        while st is not None and not isinstance(st, ast.stmt):
+          st = pm.get(id(st))
+        for t, p in U.path_conditions(ns.node, st):
+          if t is c:
+            pol = p
+  if pol is None:
+    return
+  if not pol:
+    sel = set(universe) - sel
+  ok = sel == {'TIME_SHIFT'}
+  ctx.ob('STEPS/num-steps-types', ns, c, ok, 'exactly the TIME_SHIFT events are counted' if ok else
+         'num_steps adds up the values of the event types %s; only TIME_SHIFT values are steps (%s would be counted as length)' % (
+             sorted(sel), ', '.join(sorted(sel - {'TIME_SHIFT'})) or 'nothing else, but TIME_SHIFT is missing'),
+         construct='event types counted by num_steps', definite=True)
+
+
 # ------------------------------------------------------------------ S6
 def steps_family(ctx):
   bp = ctx.cls('performance_lib:BasePerformance')
@@ -308,6 +373,7 @@ def steps_family(ctx):
   ok = len(adds) == 1 and norm_text(adds[0].value).endswith('.event_value') and \
       any(pol and 'TIME_SHIFT' in norm_text(t) and '==' in norm_text(t) for (t, pol) in U.enclosing_tests(ns.node, adds[0]))
   ctx.ob('STEPS/num-steps', ns, adds[0] if adds else ns.node, ok, 'num_steps sums the values of TIME_SHIFT events only' if ok else 'num_steps does not sum exactly the TIME_SHIFT values')
+  step_types(ctx, bp, ns)
   sp = bp.methods['steps']
   adds = [s for s in U.walk_stmts(sp.node) if isinstance(s, ast.AugAssign) and isinstance(s.op, ast.Add)]
   ok = len(adds) == 1 and any(pol and 'TIME_SHIFT' in norm_text(t) for (t, pol) in U.enclosing_tests(sp.node, adds[0]))
